@@ -437,6 +437,9 @@ class Engine:
                 if any(p == last_write[0] for p in (path or ())):
                     locus = last_write[0]
                 locus = f"{locus}@{last_write[1]}"
+            hook = getattr(self, "locus_hook", None)
+            if hook is not None:
+                locus = hook(self, label, path, last_write) or locus
             self.add_violation(
                 "shared_object_mutated",
                 locus,
